@@ -1,7 +1,8 @@
 (* C03 — property theorems only.  Each is closed by `exact <lemma>` and followed by Print Assumptions.
 
    Vocabulary: `run v ops` = what every Flush of the history `ops` emits in the model (variant v: v_fixed =
-   with fixes/C03-discard-pending-on-last-match-stopped.patch, v_lexname = tie-break on name proper);
+   with fixes/C03-discard-pending-on-last-match-stopped.patch, v_lexname = tie-break on name proper, v_resetact =
+   with fixes/C01-deleted-tier-resets-default-action.patch; every theorem quantified over v holds for all of them);
    `flush_out v ops ord` = what a Flush emits after the history `ops` (ord = iteration order of the pending set);
    `net ops` = the datastore / upstream state the history leaves (fold); `expected_tiers D e` = the specification.
 
@@ -170,7 +171,7 @@ Theorem c03_sorter_invariant : forall v s P T,
                             /\ (snd (sorter_update_policy v s k (Some m)) = false -> P k = Some m))
   /\ (forall k, srep v (fst (sorter_update_policy v s k None)) (updP P k None) T
               /\ (snd (sorter_update_policy v s k None) = false -> P k = None))
-  /\ (forall n val, srep v (sorter_tier_update s n val) P (updT T n val))
+  /\ (forall n val, srep v (sorter_tier_update v s n val) P (updT T n val))
   /\ (forall k, has_policy s k = true <-> exists m, P k = Some m).
 Proof.
   exact (fun v s P T R =>
